@@ -176,6 +176,29 @@ fn c05_row_exact<const K: usize>() {
     core::mem::forget(s);
 }
 
+/// Contract of `sample_state` used at L1 (proved for the real function by k_sample_state_exact_*):
+/// exactly one 32-bit word is drawn when the row exists, the uniform draw is its top 23 bits
+/// scaled to [0,1), the row is scanned in declaration order against the f32 running sum.
+/// (The real function reaches this through rand's rejection loop, whose exit the symbolic
+/// executor cannot decide statically; that is why the closed form is substituted at L1.)
+pub(crate) fn sample_state_c<R: RngCore>(s: &State, event: Event, rng: &mut R) -> Option<usize> {
+    if let Some(vector) = &s.transitions[event.to_usize()] {
+        let w = rng.next_u32();
+        let r = ((w >> 9) as f32) * (1.0 / 8388608.0);
+        let mut sum: f32 = 0.0;
+        for t in vector.iter() {
+            sum += t.1;
+            if r < sum {
+                return Some(t.0);
+            }
+        }
+    }
+    None
+}
+pub(crate) fn replay_sample_state_hook<R: RngCore>(s: &State, event: Event, rng: &mut R) -> Option<Option<usize>> {
+    if crate::verif::leaf_contracts_on() { Some(sample_state_c(s, event, rng)) } else { None }
+}
+
 /// reference: documented cumulative-sum sampling over one uniform draw in [0,1)
 pub(crate) fn ref_sample_row<const K: usize>(row: &[Trans; K], w: u32) -> Option<usize> {
     let r = ((w >> 9) as f32) * (1.0 / 8388608.0);
